@@ -58,3 +58,62 @@ Theorem C03_unrelated_selection_kept :
     nb s = Some x -> m_num x <> b -> nb (snd (fall_back sha sigok key d s b)) = Some x.
 Proof. exact fall_back_nb_kept. Qed.
 Print Assumptions C03_unrelated_selection_kept.
+
+(* ---------- refinement to the abstract lifecycle machine (theories/Spec.v) ----------
+   Spec.v is the specification of the lifecycle in one page: selected / last good / booting numbers, the ban
+   list, and which numbers have a bootable artifact.  Through the relation Rc (same numbers, same ban list, one
+   record per number, "validates on this disk" = "has an artifact" for every recorded patch) every lifecycle
+   call of the model IS the corresponding transition of that machine and returns what it returns - from any
+   related state, hence along every history.  The fallback rule of C03 (and C09, C10, C18, C19) is read off
+   a_fall_back / a_query / a_success / a_failure / a_install. *)
+From UV Require Import Spec SpecRefine SpecCalls.
+
+Theorem C03_calls_refine_the_abstract_machine :
+  forall sha sigok zdec base (w : world) (c : cfg) (a : ast) (o : op),
+    w_cfg w = Some c -> lifecycle o = true -> Rc sha sigok c (w_disk w) a ->
+    op_install_ok sha sigok zdec base c (w_disk w) o ->
+    let '(w', x, _) := step sha sigok zdec base w o in
+    w_cfg w' = Some c /\
+    Rc sha sigok c (w_disk w') (fst (a_world_step a o (op_verified sha zdec base o))) /\
+    x = snd (a_world_step a o (op_verified sha zdec base o)).
+Proof. exact step_refines. Qed.
+Print Assumptions C03_calls_refine_the_abstract_machine.
+
+(* a restart is "the patch that was booting, if any, has failed" *)
+Theorem C03_restart_refines :
+  forall sha sigok zdec base (w : world) (c : cfg) (a : ast) relv y,
+    cfg_of relv y = Some c -> Rc sha sigok c (w_disk w) a ->
+    let w1 := fst (fst (step sha sigok zdec base w OKill)) in
+    let '(w2, x, _) := step sha sigok zdec base w1 (OInit relv y true) in
+    w_cfg w2 = Some c /\ Rc sha sigok c (w_disk w2) (a_failure a) /\ x = RBool true.
+Proof. exact restart_refines. Qed.
+Print Assumptions C03_restart_refines.
+
+(* a disk of another release, or with an unreadable state.json, is the empty abstract state *)
+Theorem C03_other_release_is_empty :
+  forall sha sigok (c : cfg) (d : disk) has,
+    ~ stable (c_rel c) d ->
+    Rc sha sigok c d {| a_sel := None; a_good := None; a_boot := None; a_ban := []; a_has := has |}.
+Proof. exact Rc_release_change. Qed.
+Print Assumptions C03_other_release_is_empty.
+
+(* the PatchManager-level statement over whole histories of its operations *)
+Theorem C03_patch_manager_history_refines :
+  forall sha sigok key ops d s a,
+    R sha sigok key d s a -> ops_ok sha sigok key (d, s) ops ->
+    R sha sigok key (fst (fst (pm_run sha sigok key (d, s) ops))) (snd (fst (pm_run sha sigok key (d, s) ops)))
+      (fst (a_run a ops)) /\
+    snd (pm_run sha sigok key (d, s) ops) = snd (a_run a ops).
+Proof. intros. apply pm_run_refines; assumption. Qed.
+Print Assumptions C03_patch_manager_history_refines.
+
+(* non-vacuity and a reading aid: the D1 history on the abstract machine - 1 good, 2 pending, 3 installed: 2 is
+   reclaimed, 1 kept; 3 fails: fall back to 1 *)
+Example C03_abstract_example :
+  let a0 := {| a_sel := None; a_good := None; a_boot := None; a_ban := []; a_has := fun _ => false |} in
+  let a1 := a_success (a_start (a_install a0 1)) in
+  let a2 := a_install (a_install a1 2) 3 in
+  let a3 := a_failure (a_start a2) in
+  (a_sel a2, a_good a2, a_has a2 1, a_has a2 2, a_has a2 3) = (Some 3, Some 1, true, false, true) /\
+  (a_sel a3, a_good a3, a_ban a3, a_has a3 3) = (Some 1, Some 1, [3], false).
+Proof. vm_compute. split; reflexivity. Qed.
